@@ -1,6 +1,7 @@
 package main
 
 import (
+	"go/token"
 	"context"
 	"encoding/json"
 	"fmt"
@@ -54,9 +55,14 @@ var props = map[string]*PropDef{}
 
 func init() {
 	props["C14"] = &PropDef{
+		Extra: func(cc *checkCtx) []*Obligation {
+			return cc.boundedTest("keytab round trip", "keytab", "keytab_roundtrip_test.go.txt", "^TestGowpBoundedKeytabRoundTrip$",
+				"2000 (thorough: 50000) pseudo-random keytabs: 1..5 entries, 1..3 components, key versions up to 2^32-1, key lengths 1..40, file versions 1 and 2; Unmarshal(Marshal(kt)) has the same entries and marshals to the same octets")
+		},
 		Funcs: []string{
 			`(*keytab.Keytab).GetEncryptionKey`, `(*keytab.Keytab).Unmarshal`,
 			`keytab.readInt8`, `keytab.readInt16`, `keytab.readInt32`, `keytab.readBytes`, `keytab.readTimestamp`, `keytab.parsePrincipal`,
+			`(keytab.principal).marshal`, `keytab.marshalString`, `(keytab.entry).marshal`, `(*keytab.Keytab).Marshal`,
 		},
 		Kinds:           kinds(contractKinds...),
 		NeedObligations: true,
@@ -66,10 +72,10 @@ func init() {
 			"kvno passed to GetEncryptionKey satisfies 0 <= kvno < 2^32 (precondition from the property's quantifier; uint32(kvno) truncates outside it)",
 		},
 		NotDecided: []string{
-			"round trip Unmarshal(Marshal(kt)) == kt and agreement with an independent reader of whole files (entry-level format spec not yet under contract)",
+			"round trip Unmarshal(Marshal(kt)) == kt for all keytabs: only the component count field is proved on both sides; the whole round trip is covered by the bounded stand-in (random keytabs), not proved; agreement with an independent reader of whole files",
 			"parsePrincipal's error is dropped by Unmarshal (observed, not yet an obligation)",
 		},
-		LevelNote: "Lookup: GetEncryptionKey is proved against the matching rule kmatch of the property (both directions stated in the property, and newest-timestamp preference) for every keytab and query. Parsing: the readers are proved to decode exactly the bytes at the cursor in the file's byte order and to advance it; Unmarshal is proved memory-safe and terminating.",
+		LevelNote: "Lookup: GetEncryptionKey is proved against the matching rule kmatch of the property (both directions stated in the property, and newest-timestamp preference) for every keytab and query. Parsing: the readers are proved to decode exactly the bytes at the cursor in the file's byte order and to advance it; Unmarshal is proved memory-safe and terminating. Writing: principal.marshal is proved to write the component count the way parsePrincipal reads it back (a version 1 file counts the realm; the defect fixed in 54a8b3c fails this clause); the marshal functions are proved memory-safe.",
 	}
 	props["C01"] = &PropDef{
 		Funcs: []string{
@@ -123,12 +129,13 @@ func init() {
 		LevelNote: "Proved for every reply, request, credentials and configuration: ASRep.Verify / ASExchange succeed only if cname, crealm, nonce, sname, srealm (and addresses when requested) equal those of the request sent, the enc-part decrypts (usage 3) under the client's key - for keytab credentials an entry matching the reply's cname/crealm/kvno/etype - and KDC authtime is within the configured clockskew; TGSRep.DecryptEncPart uses usage 8 with the TGT session key and TGSRep.Verify / TGSExchange succeed only if cname, ticket realm, nonce and srealm match the request returned with the reply, every reply address is among the requested ones and start or auth time is within clockskew. Both exchanges terminate: referral recursion has the variant 6 - referral.",
 	}
 	props["C02"] = &PropDef{
+		Extra: func(cc *checkCtx) []*Obligation { return cc.cleanupArgCheck() },
 		Funcs: []string{
 			`(*service.Cache).IsReplay`, `(*service.Cache).AddEntry`, `(*service.Cache).addEntry`, `(*service.Cache).ClearOldEntries`,
 			`(*service.Cache).getClientEntries`, `(*service.Cache).getClientEntry`, `service.GetReplayCache`,
 			`service.VerifyAPREQ`,
 		},
-		Kinds:           kinds(append([]string{"lock"}, contractKinds...)...),
+		Kinds:           kinds(append([]string{"lock", "table"}, contractKinds...)...),
 		NeedObligations: true,
 		QuickTimeout:    20,
 		Assumptions: []string{
@@ -137,7 +144,7 @@ func init() {
 			"map keys are compared as values: time.Time keys by instant (decoded authenticator times are UTC without monotonic reading), strings.Join is an uninterpreted function of the name components (so names whose components contain '/' may collide, as in the code)",
 		},
 		NotDecided: []string{
-			"that an entry is evicted only after its authenticator time has left the skew window, and that the clean-up goroutine passes the configured skew (ClearOldEntries is proved never to add entries; the eviction condition is not yet a postcondition)",
+			"the interval at which the clean-up goroutine runs (timing); that it evicts with the skew GetReplayCache was given is decided structurally (its call passes the parameter d unchanged)",
 			"the client realm is not part of the cache key in the code; the property statement speaks of client name and timestamp only",
 		},
 		LevelNote: "Proved for every cache content and every schedule in the lock-invariant model: IsReplay is an atomic test-and-set under one write lock - it returns true exactly when (client name, authenticator time incl. microseconds, service name) was recorded at the moment the lock was taken, records the presentation, and neither forgets nor adds any other record; AddEntry likewise; ClearOldEntries never adds a record; every access to the guarded maps happens with the lock held at the needed level, no lock is re-acquired or released unheld, and the lock invariant (every client has its own non-nil map) is re-established at each release. VerifyAPREQ accepts only when IsReplay answered false (ghost lastIsReplay).",
@@ -200,15 +207,16 @@ func init() {
 			`(*client.Client).GetCachedTicket`, `(*client.Client).sessionTGT`, `(*client.Client).sessionTimes`, `(*client.Client).addSession`,
 			`config.randServOrder`, `(*config.Config).GetKDCs`, `(*config.Config).GetKpasswdServers`,
 		},
-		Kinds:            kinds(append([]string{"lock"}, contractKinds...)...),
+		Kinds:            kinds(append([]string{"lock", "table"}, contractKinds...)...),
 		NeedObligations:  true,
 		QuickTimeout:     20,
+		Extra:            func(cc *checkCtx) []*Obligation { return cc.chanSendCheck("client") },
 		AllowUnsupported: map[string]bool{"(*client.session).destroy": true, "(*client.sessions).update": true},
 		Assumptions: []string{
 			"concurrency is modelled by the lock-invariant rule: state declared as guarded by a mutex (the Entries maps of client.Cache and client.sessions, the mutable fields of client.session) is arbitrary at every acquisition and may only be accessed with that mutex held at the needed level (proved per access); interleavings between critical sections are covered by the havoc; accesses to memory that is not declared guarded are not analysed for races",
 			"an object allocated by the function itself is initialised without its lock (taken as unpublished)",
 			"lock ordering across different mutexes (deadlock freedom) is not analysed beyond: no declared lock is acquired while already held by the same function, none is released unheld",
-			"functions using channels (session.destroy, sessions.update, the auto-renewal goroutine) are outside the subset and not covered",
+			"functions using channels (session.destroy, sessions.update, the auto-renewal goroutine) are outside the subset of the symbolic executor; for them only the structural rule 'a blocking send goes to a channel field whose every creation site has capacity >= 1' is decided (kind table); that at most one value is sent per channel instance (a cancelled session leaves the table in the same critical section) is assumed",
 		},
 		NotDecided: []string{
 			"data-race freedom of state that is not declared guarded (Client.settings.assumePreAuthentication and preAuthEType are written by ASExchange without a lock), deadlocks involving the renewal goroutine's cancel channel, goroutine leaks",
@@ -248,21 +256,23 @@ func init() {
 			`(*pac.SignatureData).Unmarshal`, `(*pac.PACType).verify`, `(*pac.PACType).Unmarshal`, `(*pac.PACType).ProcessPACInfoBuffers`,
 			`(*messages.Ticket).GetPACType`, `(*keytab.Keytab).GetEncryptionKey`, `crypto.GetChksumEtype`,
 			`\(crypto\.[A-Za-z0-9]+\)\.VerifyChecksum`, `crypto/common.VerifyChecksum`, `service.VerifyAPREQ`,
+			`(*pac.KerbValidationInfo).GetGroupMembershipSIDs`,
 		},
 		Kinds:           kinds(contractKinds...),
 		NeedObligations: true,
 		QuickTimeout:    20,
 		Assumptions: []string{
+			"mstypes.RPCSID.String is a deterministic, uninterpreted function of the SID value and its sub-authority array (contract builtin sidstr)",
 			"the keyed checksum of a checksum type is the uninterpreted et_cksum (C07 relates it to the HMAC compositions); 'changing any bit makes it fail' rests on the MAC assumption",
 			"mstypes.Reader returns the octets at its cursor, little-endian for integers (model of the rpc/v2 dependency, trusted); the NDR decoders of the individual info buffers (KerbValidationInfo, ClientInfo, ...) are trusted to fill only structures they allocate",
 			"trusted frame of ProcessPACInfoBuffers (writes the PAC object and its to-be-signed copy only)",
 		},
 		NotDecided: []string{
 			"that ZeroSigData equals the PAC octets with exactly the two signature fields zeroed is proved per signature buffer (SignatureData.Unmarshal zeroes exactly the signature octets) but not as a whole-PAC postcondition of ProcessPACInfoBuffers",
-			"the account attributes exposed to the application (names, ids, group SIDs, logon times): the NDR decoding of KerbValidationInfo and GetGroupMembershipSIDs are not under functional contract",
+			"the account attributes exposed to the application (names, ids, logon times): the NDR decoding of KerbValidationInfo is a trusted dependency; of GetGroupMembershipSIDs only the extra-SID clause is proved (every extra SID of the validation info is in the returned list) - the '<domain SID>-<RID>' members are built by fmt.Sprintf, outside the subset, and the copy into ADCredentials is not under contract",
 			"the KDC signature is not verified by the library (only its presence is required), as in the code",
 		},
-		LevelNote: "Proved for every PAC, key and keytab: SignatureData.Unmarshal reads the checksum type as the little-endian word at 0, takes exactly the type's signature length ([MS-PAC] 2.8: 16/12/12/16/24) and returns the buffer with exactly those octets zeroed, everything else (including a trailing RODC identifier) kept; verify / ProcessPACInfoBuffers succeed only with KerbValidationInfo, ClientInfo, server and KDC signature buffers present and the server signature equal to the keyed checksum (usage 17) of its declared type over ZeroSigData; GetPACType reports a PAC without error only if that holds under a keytab key matching the (override) service principal, realm, kvno and etype of the ticket; VerifyAPREQ accepts a request carrying a PAC only then (ghost lastPACBad).",
+		LevelNote: "Proved for every PAC, key and keytab: SignatureData.Unmarshal reads the checksum type as the little-endian word at 0, takes exactly the type's signature length ([MS-PAC] 2.8: 16/12/12/16/24) and returns the buffer with exactly those octets zeroed, everything else (including a trailing RODC identifier) kept; verify / ProcessPACInfoBuffers succeed only with KerbValidationInfo, ClientInfo, server and KDC signature buffers present and the server signature equal to the keyed checksum (usage 17) of its declared type over ZeroSigData; GetPACType reports a PAC without error only if that holds under a keytab key matching the (override) service principal, realm, kvno and etype of the ticket; VerifyAPREQ accepts a request carrying a PAC only then (ghost lastPACBad). GetGroupMembershipSIDs returns a list containing the string form of every extra SID of the validation info (nested-loop invariant with a forall-exists).",
 	}
 	props["C12"] = &PropDef{
 		Funcs: []string{
@@ -285,6 +295,10 @@ func init() {
 		LevelNote: "Proved for every configuration, request and network behaviour: dialSendUDP / dialSendTCP try the servers in the order GetKDCs returned, return the first reply received and fail only after exactly len(kdcs) connection attempts (and terminate); sendTCP reads the complete 4-octet length header and the complete reply; sendToKDC uses TCP only when udp_preference_limit is 1, UDP first for requests up to the limit and TCP first otherwise, returns success exactly when the last transport used succeeded, surfaces a KRB-ERROR with the KDC's error code, and falls back to the other transport after a KRB-ERROR only for UDP's KRB_ERR_RESPONSE_TOO_BIG; GetKDCs returns every configured server once (set level) under keys 1..n.",
 	}
 	props["C05"] = &PropDef{
+		Extra: func(cc *checkCtx) []*Obligation {
+			return cc.boundedTest("crypto round trip", "crypto", "crypto_roundtrip_test.go.txt", "^TestGowpBoundedCryptoRoundTrip$",
+				"six etypes, message lengths 0..80 and 2000 (thorough: 40000) random (key, usage, message) triples: DecryptMessage(EncryptMessage(m)) == m on the real code (des3 up to zero padding)")
+		},
 		Funcs: []string{
 			`crypto/rfc3961\.(DES3EncryptData|DES3DecryptData|DES3EncryptMessage|DES3DecryptMessage|VerifyIntegrity)`,
 			`crypto/rfc3962\.(EncryptData|DecryptData|EncryptMessage|DecryptMessage)`,
@@ -304,7 +318,7 @@ func init() {
 			"laws of sequences used by the round-trip lemma (truncating / cutting a concatenation) are axioms of the sequence theory; a vacuity canary (a false lemma over the same specification) must stay unprovable on every run",
 		},
 		NotDecided: []string{
-			"completeness of decryption at the code level (every ciphertext satisfying the RFC condition is accepted, i.e. no spurious error paths such as key-length checks) is shown only through the specification-level round trip; the code contracts are the soundness direction plus the exact encryption function",
+			"completeness of decryption at the code level (every ciphertext satisfying the RFC condition is accepted, i.e. no spurious error paths such as length or key-size guards) is proved only at the specification level; on the code it is covered by the bounded encrypt/decrypt stand-in, not proved",
 		},
 		LevelNote: "Proved for all six etypes, every key, usage and message: EncryptMessage returns exactly the RFC composition over the confounder drawn from crypto/rand - E(Ke, conf|msg|pad) | HMAC(Ki, conf|msg|pad) truncated (RFC 3961 5.3, des3 with zero padding to 8 octets, RFC 3962), C | HMAC(Ki, IV|C) (RFC 8009 5), HMAC-MD5 checksum | RC4(K3, conf|data) with the Microsoft usage mapping (RFC 4757 5); DecryptMessage returns the decryption of the body without the confounder; and (lemma proved from the specification) decrypting any RFC encryption under the same key and usage is accepted and returns the message (for des3 up to the prescribed zero padding). Hence library and RFC interoperate in both directions.",
 	}
@@ -499,7 +513,11 @@ func init() {
 // directory with go test -overlay. A pass is recorded under bounded_standins (never counted as proved); a failure
 // becomes an open obligation whose text carries the failing input printed by the test.
 func (cc *checkCtx) boundedTest(name, pkgRel, file, run, bound string) []*Obligation {
-	dir := filepath.Join("/repo/v8", pkgRel)
+	repo := os.Getenv("GOWP_REPO")
+	if repo == "" {
+		repo = "/repo/v8"
+	}
+	dir := filepath.Join(repo, pkgRel)
 	src := filepath.Join(verifDir, "bounded", file)
 	ov := map[string]map[string]string{"Replace": {filepath.Join(dir, "zz_gowp_bounded_test.go"): src}}
 	ovb, _ := json.Marshal(ov)
@@ -882,4 +900,228 @@ func (cc *checkCtx) finalFlagCheck() []*Obligation {
 			Desc: "appendUntilFinal call sites found", Raw: "no call sites: the structural check is vacuous"})
 	}
 	return out
+}
+
+// chanSendCheck (C11): every blocking send in the package goes to a channel held in a struct field, and every creation
+// site of that field's channels in the package has a constant capacity >= 1, so that the (single) send made while a
+// mutex is held cannot block on a receiver that has gone away. One obligation per send site.
+func (cc *checkCtx) chanSendCheck(pkg string) []*Obligation {
+	var out []*Obligation
+	type fieldKey struct {
+		t string
+		f int
+	}
+	fieldOf := func(v ssa.Value) (fieldKey, bool) {
+		if u, ok := v.(*ssa.UnOp); ok && u.Op == token.MUL {
+			if fa, ok := u.X.(*ssa.FieldAddr); ok {
+				return fieldKey{types.TypeString(fa.X.Type(), nil), fa.Field}, true
+			}
+		}
+		return fieldKey{}, false
+	}
+	var fns []*ssa.Function
+	var add func(f *ssa.Function)
+	add = func(f *ssa.Function) {
+		fns = append(fns, f)
+		for _, an := range f.AnonFuncs {
+			add(an)
+		}
+	}
+	var names []string
+	for n, f := range cc.P.Funcs {
+		if f.Pkg != nil && shortName(f.Pkg.Pkg.Path()) == pkg && f.Parent() == nil && len(f.Blocks) > 0 {
+			names = append(names, n)
+		}
+	}
+	sort.Strings(names)
+	for _, n := range names {
+		add(cc.P.Funcs[n])
+	}
+	// creation sites per field
+	caps := map[fieldKey][]string{} // "" ok, otherwise the reason it is not
+	for _, f := range fns {
+		for _, b := range f.Blocks {
+			for _, in := range b.Instrs {
+				st, ok := in.(*ssa.Store)
+				if !ok {
+					continue
+				}
+				fa, ok := st.Addr.(*ssa.FieldAddr)
+				if !ok {
+					continue
+				}
+				if _, isChan := types.Unalias(st.Val.Type()).Underlying().(*types.Chan); !isChan {
+					continue
+				}
+				k := fieldKey{types.TypeString(fa.X.Type(), nil), fa.Field}
+				v := st.Val
+				if ct, ok := v.(*ssa.ChangeType); ok {
+					v = ct.X
+				}
+				why := ""
+				switch mc := v.(type) {
+				case *ssa.MakeChan:
+					c, isConst := mc.Size.(*ssa.Const)
+					if !isConst || c.Int64() < 1 {
+						why = "created with capacity " + mc.Size.String() + " at " + cc.P.posString(mc.Pos())
+					}
+				case *ssa.Const:
+					// nil: no channel
+					continue
+				default:
+					why = "assigned a channel of unknown origin at " + cc.P.posString(in.Pos())
+				}
+				caps[k] = append(caps[k], why)
+			}
+		}
+	}
+	site := 0
+	check := func(f *ssa.Function, ch ssa.Value, pos token.Pos) {
+		site++
+		o := &Obligation{Fn: fnName(f), Name: fmt.Sprintf("%s#table:chan-send[%d]", fnName(f), site), Kind: "table", Status: "discharged", Solver: "table",
+			Desc: "a blocking channel send goes to a channel field all of whose creation sites have capacity >= 1 @ " + cc.P.posString(pos)}
+		k, ok := fieldOf(ch)
+		switch {
+		case !ok:
+			o.Status, o.Raw = "failed", "the channel sent to is not read from a struct field: "+ch.String()
+		case len(caps[k]) == 0:
+			o.Status, o.Raw = "failed", "no creation site of the channel field found in package "+pkg
+		default:
+			for _, why := range caps[k] {
+				if why != "" {
+					o.Status, o.Raw = "failed", "the channel can be "+why+": a send made while a mutex is held blocks for ever once the receiver has gone"
+				}
+			}
+		}
+		out = append(out, o)
+	}
+	for _, f := range fns {
+		for _, b := range f.Blocks {
+			for _, in := range b.Instrs {
+				switch x := in.(type) {
+				case *ssa.Send:
+					check(f, x.Chan, x.Pos())
+				case *ssa.Select:
+					if x.Blocking {
+						for _, st := range x.States {
+							if st.Dir == types.SendOnly {
+								check(f, st.Chan, st.Pos)
+							}
+						}
+					}
+				}
+			}
+		}
+	}
+	if len(out) == 0 {
+		out = append(out, &Obligation{Fn: pkg, Name: pkg + "#table:chan-send", Kind: "table", Status: "failed", Solver: "table",
+			Desc: "channel sends of package " + pkg, Raw: "no channel send found: the structural check is vacuous"})
+	}
+	return out
+}
+
+// cleanupArgCheck (C02): the clean-up goroutine started by GetReplayCache must evict with the skew it was given.
+// Structural decision over go/ssa: the duration passed to Cache.ClearOldEntries inside the goroutine is the
+// parameter d of GetReplayCache itself (captured unchanged), not a value derived from it.
+func (cc *checkCtx) cleanupArgCheck() []*Obligation {
+	mk := func(ok bool, why string) []*Obligation {
+		o := &Obligation{Fn: "service.GetReplayCache", Name: "service.GetReplayCache#table:cleanup-skew", Kind: "table", Status: "discharged", Solver: "table",
+			Desc: "the clean-up goroutine calls ClearOldEntries with GetReplayCache's own parameter d"}
+		if !ok {
+			o.Status, o.Raw = "failed", why
+		}
+		return []*Obligation{o}
+	}
+	root := cc.P.Funcs["service.GetReplayCache"]
+	if root == nil || len(root.Params) != 1 {
+		return mk(false, "service.GetReplayCache(d) not found")
+	}
+	// resolve a value through closure captures up to the enclosing functions
+	var resolve func(fn *ssa.Function, v ssa.Value, depth int) ssa.Value
+	resolve = func(fn *ssa.Function, v ssa.Value, depth int) ssa.Value {
+		fv, ok := v.(*ssa.FreeVar)
+		if !ok || depth > 4 || fn.Parent() == nil {
+			return v
+		}
+		idx := -1
+		for i, x := range fn.FreeVars {
+			if x == fv {
+				idx = i
+			}
+		}
+		if idx < 0 {
+			return v
+		}
+		for _, b := range fn.Parent().Blocks {
+			for _, in := range b.Instrs {
+				if mc, ok := in.(*ssa.MakeClosure); ok && mc.Fn == ssa.Value(fn) && idx < len(mc.Bindings) {
+					return resolve(fn.Parent(), mc.Bindings[idx], depth+1)
+				}
+			}
+		}
+		return v
+	}
+	// every store to a cell, in the function and its closures
+	var storesTo func(fn *ssa.Function, cell ssa.Value) []*ssa.Store
+	storesTo = func(fn *ssa.Function, cell ssa.Value) []*ssa.Store {
+		var out []*ssa.Store
+		for _, b := range fn.Blocks {
+			for _, in := range b.Instrs {
+				if st, ok := in.(*ssa.Store); ok && resolve(fn, st.Addr, 0) == cell {
+					out = append(out, st)
+				}
+			}
+		}
+		for _, an := range fn.AnonFuncs {
+			out = append(out, storesTo(an, cell)...)
+		}
+		return out
+	}
+	// the value is the parameter d: directly, or a load of the cell the parameter was spilled to for capture by
+	// reference, that cell being written once, with d
+	var isParamN func(fn *ssa.Function, v ssa.Value, depth int) bool
+	isParamN = func(fn *ssa.Function, v ssa.Value, depth int) bool {
+		if depth > 4 {
+			return false
+		}
+		if u, ok := v.(*ssa.UnOp); ok && u.Op == token.MUL {
+			cell := resolve(fn, u.X, 0)
+			if al, ok := cell.(*ssa.Alloc); ok && al.Parent() != nil {
+				sts := storesTo(root, al)
+				// a copy of d (skew := d) is d
+				return len(sts) == 1 && isParamN(sts[0].Parent(), sts[0].Val, depth+1)
+			}
+			return false
+		}
+		return resolve(fn, v, 0) == ssa.Value(root.Params[0])
+	}
+	isParam := func(fn *ssa.Function, v ssa.Value) bool { return isParamN(fn, v, 0) }
+	found := 0
+	var visit func(fn *ssa.Function) (bool, string)
+	visit = func(fn *ssa.Function) (bool, string) {
+		for _, b := range fn.Blocks {
+			for _, in := range b.Instrs {
+				if ci, ok := in.(ssa.CallInstruction); ok {
+					c := ci.Common()
+					if callee := c.StaticCallee(); callee != nil && fnName(callee) == "(*service.Cache).ClearOldEntries" && len(c.Args) == 2 {
+						found++
+						if !isParam(fn, c.Args[1]) {
+							return false, "ClearOldEntries is called with " + c.Args[1].String() + " at " + cc.P.posString(in.Pos()) + ", not with the parameter d"
+						}
+					}
+				}
+			}
+		}
+		for _, an := range fn.AnonFuncs {
+			if ok, why := visit(an); !ok {
+				return false, why
+			}
+		}
+		return true, ""
+	}
+	ok, why := visit(root)
+	if ok && found == 0 {
+		return mk(false, "no call of ClearOldEntries inside GetReplayCache: the structural check is vacuous")
+	}
+	return mk(ok, why)
 }
